@@ -362,6 +362,7 @@ func actxCastCompilerLet(c *Ctx) []Obligation {
 	if castT == nil {
 		fatalf("anchor unresolved: compiler.CastInstruction")
 	}
+	inserters := actxInserters(c)
 	var out []Obligation
 	for _, fd := range fds {
 		key := "homescript/compiler." + FuncName(fd) + "|cast iff NeedsRuntimeTypeValidation"
@@ -380,36 +381,23 @@ func actxCastCompilerLet(c *Ctx) []Obligation {
 		flag := root + ".NeedsRuntimeTypeValidation"
 		var bad []string
 		emission := func(ef *actxEvalFrame, ins ssa.Instruction) bool {
-			mi, ok := ins.(*ssa.MakeInterface)
-			return ok && types.Identical(mi.X.Type(), castT)
+			mi, _ := actxCastEmitted(ef, ins, castT, inserters)
+			return mi != nil
 		}
 		// the type the emitted instruction casts to
 		fromOpt := func(ef *actxEvalFrame, ins ssa.Instruction) bool {
-			mi, ok := ins.(*ssa.MakeInterface)
-			if !ok || !types.Identical(mi.X.Type(), castT) {
+			mi, mfr := actxCastEmitted(ef, ins, castT, inserters)
+			if mi == nil {
 				return false
 			}
 			okT := false
-			switch x := mi.X.(type) {
-			case *ssa.Call:
-				for _, a := range x.Call.Args {
-					if ef.fr.sym(a) == root+".OptType" {
-						okT = true
-					}
-				}
-			case *ssa.UnOp:
-				if al, isAl := x.X.(*ssa.Alloc); isAl {
-					for i := 0; i < castT.Underlying().(*types.Struct).NumFields(); i++ {
-						for _, v := range ef.fieldStores(al, i) {
-							if ef.fr.sym(v) == root+".OptType" {
-								okT = true
-							}
-						}
-					}
+			for _, a := range actxCastTypeArgs(mi, mfr) {
+				if a == root+".OptType" {
+					okT = true
 				}
 			}
 			if !okT {
-				bad = append(bad, "the cast instruction emitted at "+c.Pos(ins.Pos())+" is not built from the annotated type (OptType)")
+				bad = append(bad, "the cast instruction emitted at "+c.Pos(actxInstrPos(ins))+" is not built from the annotated type (OptType)")
 			}
 			return true
 		}
@@ -1274,6 +1262,7 @@ func actxCastExprAlways(c *Ctx) []Obligation {
 			deep[f] = true
 		}
 	}
+	inserters := actxInserters(c)
 	isCastNode := func(t types.Type) bool {
 		n, ok := t.(*types.Named)
 		return ok && n.Obj().Name() == "AnalyzedCastExpression" && n.Obj().Pkg() != nil && strings.HasSuffix(n.Obj().Pkg().Path(), "/analyzer/ast")
@@ -1328,29 +1317,14 @@ func actxCastExprAlways(c *Ctx) []Obligation {
 				}
 				want := root + ".AsType"
 				hit := func(f *actxEvalFrame, ins ssa.Instruction) bool {
+					if mi, mfr := actxCastEmitted(f, ins, castT, inserters); mi != nil {
+						for _, a := range actxCastTypeArgs(mi, mfr) {
+							if a == want {
+								return true
+							}
+						}
+					}
 					switch x := ins.(type) {
-					case *ssa.MakeInterface:
-						if castT == nil || !types.Identical(x.X.Type(), castT) {
-							return false
-						}
-						if call, ok := x.X.(*ssa.Call); ok {
-							for _, a := range call.Call.Args {
-								if f.fr.sym(a) == want {
-									return true
-								}
-							}
-						}
-						if u, ok := x.X.(*ssa.UnOp); ok {
-							if al, isAl := u.X.(*ssa.Alloc); isAl {
-								for fi := 0; fi < castT.Underlying().(*types.Struct).NumFields(); fi++ {
-									for _, v := range f.fieldStores(al, fi) {
-										if f.fr.sym(v) == want {
-											return true
-										}
-									}
-								}
-							}
-						}
 					case ssa.CallInstruction:
 						cc := x.Common()
 						if g := cc.StaticCallee(); g != nil && deep[g] && len(cc.Args) >= 2 && f.fr.sym(cc.Args[1]) == want {
